@@ -88,6 +88,9 @@ func main() {
 	if want("inv") {
 		invCases(r, per(hx.N(300, 4000)))
 	}
+	if want("reuse") {
+		reuseCases(r)
+	}
 	if want("ninv") {
 		ninvCases(r, per(hx.N(200, 4000)))
 	}
